@@ -10,7 +10,7 @@ import bpexport
 import facto_ast as fa
 import harness as H
 
-EXTRA = "Valid.CheckC01 Facto.IO Valid.CellCheck"
+EXTRA = "Valid.CheckC01 Facto.IO Valid.CellCheck Valid.StateCheck"
 BOUNDARY = [0, 1, -1, 2, -2, 3, 5, 7, -7, 2147483647, -2147483648, 65536, -65536, 46341, 1000]
 
 
@@ -50,7 +50,7 @@ def find_desc(bpj, needle):
     return [i for i, e in enumerate(bpexport.entities_of(bpj)) if needle in (e.get("player_description") or "")]
 
 
-def case_for(cid, decls, bpj, ideal=None, entities=None, c20=False, mems=None):
+def case_for(cid, decls, bpj, ideal=None, entities=None, c20=False, mems=None, harvest=None):
     """returns (defs text, expr text, meta) or raises bpexport.Unsupported.
     ideal: harvested logical edges -> check the idealised private-network circuit instead"""
     names = [d[1] for d in decls]
@@ -114,29 +114,126 @@ def case_for(cid, decls, bpj, ideal=None, entities=None, c20=False, mems=None):
             "signals": dict(ex.sig.ids), "entity_problems": ent_problems, "c20_expr": meta_c20}
     mem_problems = []
     if mems:
-        cut, cells = [], []
+        cut, cells, latches, rings = [], [], [], []
+        ents_j = bpexport.entities_of(bpj)
+        netmap = bpexport.nets(bpj)
         for m in mems.values():
-            if m.get("kind", "gated") != "gated":
-                continue
+            kind = m.get("kind", "gated")
+            sg = ex.sig.p(m["sig"])
             w = find_desc(bpj, f"mem:mem_{m['name']} (memory: write_gate)")
             h = find_desc(bpj, f"mem:mem_{m['name']} (memory: hold_gate)")
-            if len(w) != 1 or len(h) != 1:
+            if kind == "ring" and len(w) == 1 and len(h) == 1:
+                # the compiler kept the gate pair: readers see vw + vh
+                decls = list(decls)
+                decls[m["im"]] = ("sig", decls[m["im"]][1], ("bin", "+", ("var", m["iw"]), ("var", m["ih"])))
+                ds_text = fa.coq_decls(decls, ex.sig, input_vars, exposed)
+                defs = defs.replace(defs[defs.index(f"Definition ds_{cid} "):defs.index(f"Definition qs_{cid} ")],
+                                    f"Definition ds_{cid} : list decl :=\n  {ds_text}.\n")
+            if kind in ("gated", "ring") and len(w) == 1 and len(h) == 1:
+                # the gate pair (also what an unconditional self-referential write keeps when the
+                # arithmetic-feedback rewrite does not apply)
+                vw, vh = input_vars[decls[m["iw"]][1]], input_vars[decls[m["ih"]][1]]
+                cut.append(f"({w[0]}%nat, [({sg}, {vw}%positive)])")
+                cut.append(f"({h[0]}%nat, [({sg}, {vh}%positive)])")
+                when = m["when"] if m.get("when") is not None else ("int", 1)
+                cells.append(
+                    f"{{| g_w := {w[0]}%nat; g_h := {h[0]}%nat; g_sig := {sg}; g_vw := {vw}%positive; g_vh := {vh}%positive; "
+                    f"g_data := {fa.coq_expr(m['data'], ex.sig)}; g_when := {fa.coq_expr(when, ex.sig)} |}}")
+            elif kind == "gated":
                 mem_problems.append({"memory": m["name"], "write_gates": len(w), "hold_gates": len(h)})
-                continue
-            vw, vh = input_vars[decls[m["iw"]][1]], input_vars[decls[m["ih"]][1]]
-            sg = ex.sig.p(m["sig"])
-            cut.append(f"({w[0]}%nat, [({sg}, {vw}%positive)])")
-            cut.append(f"({h[0]}%nat, [({sg}, {vh}%positive)])")
-            when = m["when"] if m["when"] is not None else ("int", 1)
-            cells.append(
-                f"{{| g_w := {w[0]}%nat; g_h := {h[0]}%nat; g_sig := {sg}; g_vw := {vw}%positive; g_vh := {vh}%positive; "
-                f"g_data := {fa.coq_expr(m['data'], ex.sig)}; g_when := {fa.coq_expr(when, ex.sig)} |}}"
-            )
-        defs += (f"Definition cut_{cid} : cut_t := [{'; '.join(cut)}].\n"
-                 f"Definition cells_{cid} : list cell_req := [{'; '.join(cells)}].\n")
-        expr = f"ok (check_cells bp_{cid} cut_{cid} {n + 2}%nat ds_{cid} qs_{cid} rs_{cid} cells_{cid})"
+            elif kind == "latch":
+                l = find_desc(bpj, f"mem:mem_{m['name']} (latch)")
+                if len(l) != 1:
+                    mem_problems.append({"memory": m["name"], "latch_deciders": len(l)})
+                    continue
+                vl = input_vars[decls[m["il"]][1]]
+                cut.append(f"({l[0]}%nat, [({sg}, {vl}%positive)])")
+                latches.append(
+                    f"{{| l_ent := {l[0]}%nat; l_sig := {sg}; l_var := {vl}%positive; l_set := {fa.coq_expr(m['set'], ex.sig)}; "
+                    f"l_reset := {fa.coq_expr(m['reset'], ex.sig)}; l_set_first := {'true' if m['set_first'] else 'false'} |}}")
+            elif kind == "ring":
+                # arithmetic feedback: the combinators computing the written value form the ring
+                cand = [i for i, e in enumerate(ents_j)
+                        if e["name"] in ("arithmetic-combinator", "decider-combinator")
+                        and (f"write({m['name']})" in (e.get("player_description") or "")
+                             or f"memory:mem_{m['name']}" in (e.get("player_description") or ""))]
+                def onets(i):
+                    en = ents_j[i]["entity_number"]
+                    return {(c % 2, netmap[(en, c)]) for c in (3, 4) if (en, c) in netmap}
+                def inets(i):
+                    en = ents_j[i]["entity_number"]
+                    return {(c % 2, netmap[(en, c)]) for c in (1, 2) if (en, c) in netmap}
+                succ = {i: [j for j in cand if onets(i) & inets(j)] for i in cand}
+                hv = harvest or ideal
+                if hv and "edges" in hv:
+                    # prefer the compiler's own logical edges (physical networks may be merged: finding S12)
+                    num = bpexport.id_to_number(bpj, hv)
+                    idx_of = {e["entity_number"]: i for i, e in enumerate(ents_j)}
+                    succ = {i: [] for i in cand}
+                    for src, snk, sg_, col, *_m in hv["edges"]:
+                        a_, b_ = idx_of.get(num.get(src)), idx_of.get(num.get(snk))
+                        if a_ in succ and b_ in succ and b_ not in succ[a_]:
+                            succ[a_].append(b_)
+                # the last stage is the one readers hang on: its output network has a consumer outside the ring
+                by_num = {e["entity_number"]: e for e in ents_j}
+                def reads(en):
+                    e = by_num[en]
+                    if e["name"] == "constant-combinator":
+                        return "(output anchor)" in (e.get("player_description") or "")
+                    return e["name"] not in bpexport.POLES
+                if hv and "edges" in hv:
+                    outside_h = set()
+                    for src, snk, sg_, col, *_m in hv["edges"]:
+                        a_, b_ = idx_of.get(num.get(src)), idx_of.get(num.get(snk))
+                        if a_ in succ and b_ is not None and b_ not in succ:
+                            outside_h.add(a_)
+                else:
+                    outside_h = None
+                outside = outside_h if outside_h is not None else {i for i in cand if any(
+                    (c % 2, nid) in onets(i) for (en, c), nid in netmap.items()
+                    if c in (1, 2) and reads(en) and en not in {ents_j[j]["entity_number"] for j in cand})}
+                order = list(cand) if len(cand) == 1 else None
+                for last in ([] if order else (sorted(outside) or cand)):
+                    if len(succ.get(last, [])) < 1:
+                        continue
+                    seq = [succ[last][0]]
+                    while seq[-1] != last and len(seq) <= len(cand):
+                        nx = succ.get(seq[-1], [])
+                        if not nx:
+                            break
+                        seq.append(nx[0])
+                    if seq[-1] == last and len(set(seq)) == len(seq) == len(cand):
+                        order = seq
+                        break
+                if order is None:
+                    mem_problems.append({"memory": m["name"], "ring": "no simple cycle over the write combinators", "candidates": cand})
+                    continue
+                stages = []
+                for k_, i in enumerate(order):
+                    is_last = (k_ == len(order) - 1)
+                    vname = decls[m["ir"]][1] if is_last else None
+                    var = input_vars[vname] if is_last else (900 + len(cut))
+                    cut.append(f"({i}%nat, [({sg}, {var}%positive)])")
+                    stages.append(f"{{| r_ent := {i}%nat; r_sig := {sg}; r_var := {var}%positive |}}")
+                rings.append((stages, fa.coq_expr(m["data"], ex.sig)))
+        defs += f"Definition cut_{cid} : cut_t := [{'; '.join(cut)}].\n"
+        parts = []
+        if cells:
+            defs += f"Definition cells_{cid} : list cell_req := [{'; '.join(cells)}].\n"
+            parts.append(f"ok (check_cells bp_{cid} cut_{cid} {n + 2}%nat ds_{cid} qs_{cid} rs_{cid} cells_{cid})")
+        if latches:
+            defs += f"Definition latches_{cid} : list latch_req := [{'; '.join(latches)}].\n"
+            parts.append(f"ok (check_latches bp_{cid} cut_{cid} {n + 2}%nat ds_{cid} qs_{cid} rs_{cid} latches_{cid})")
+        for k_, (stages, fx) in enumerate(rings):
+            defs += f"Definition ring_{cid}_{k_} : list stage := [{'; '.join(stages)}].\n"
+            parts.append(f"ok (check_ring bp_{cid} cut_{cid} {n + 2}%nat ds_{cid} qs_{cid} rs_{cid} ring_{cid}_{k_} {fx})")
+        if parts:
+            expr = " && ".join(parts)
         meta["mem_problems"] = mem_problems
         meta["cells"] = len(cells)
+        meta["latches"] = len(latches)
+        meta["rings"] = [len(s) for s, _ in rings]
+        meta["latch_defs"] = latches
     return defs, expr, meta
 
 
